@@ -27,7 +27,7 @@ def main():
         print(__doc__)
         return 2
     name = args[0]
-    props, tier, only, inplace, keep = [], "quick", None, False, False
+    props, tier, only, inplace, keep, base = [], "quick", None, False, False, "HEAD"
     i = 1
     while i < len(args):
         a = args[i]
@@ -35,6 +35,8 @@ def main():
             tier = args[i + 1]; i += 1
         elif a == "--only":
             only = args[i + 1]; i += 1
+        elif a == "--base":
+            base = args[i + 1]; i += 1
         elif a == "--inplace":
             inplace = True
         elif a == "--keep":
@@ -57,7 +59,7 @@ def main():
         wt = f"/tmp/seedwt/{name}"
         os.makedirs("/tmp/seedwt", exist_ok=True)
         sh(f"git -C /repo worktree remove --force {wt}", stderr=subprocess.DEVNULL)
-        if sh(f"git -C /repo worktree add -q --detach {wt} HEAD").returncode != 0:
+        if sh(f"git -C /repo worktree add -q --detach {wt} {base}").returncode != 0:
             return 2
         if sh(f"git -C {wt} apply {patch}").returncode != 0:
             print("patch does not apply"); sh(f"git -C /repo worktree remove --force {wt}"); return 2
@@ -87,7 +89,7 @@ def main():
                 res = json.load(open(rp)) if os.path.exists(rp) else {}
                 head = subprocess.run(["git", "-C", ROOT, "rev-parse", "--short", "HEAD"], capture_output=True, text=True).stdout.strip()
                 res.setdefault(name, []).append({"check": p, "tier": tier, "only": only, "rc": r.returncode, "caught": bool(r.returncode == 1 and viol),
-                                                 "signatures": [s.replace("signature: ", "") for s in sigs][:8], "verif_commit": head,
+                                                 "signatures": [s.replace("signature: ", "") for s in sigs][:8], "verif_commit": head, "repo_base": base,
                                                  "summary": summary[-1] if summary else ""})
                 json.dump(res, open(rp, "w"), indent=1)
             except Exception as e:  # noqa: BLE001
